@@ -170,6 +170,11 @@ pub struct C03Deep {
 impl C03Deep {
     pub fn build(&self, seed: u64, run: u64) -> DeepSc {
         let mut rng = Rng::for_run(seed, self.id(), run);
+        // runs 20..: every fixed run-template once (a long run of one token at each grammar position)
+        if run >= 20 && ((run - 20) as usize) < RUN_TEMPLATES.len() {
+            let (template, unit) = RUN_TEMPLATES[(run - 20) as usize];
+            return DeepSc { shape: "run".into(), depth: 100_000, stack_kib: 64, tail: "none".into(), tail_at: 0, via: (*rng.pick(&["str", "slice", "iter"])).to_string(), opts: (false, false), fault: None, outer: Some(template.to_string()), unit: Some(unit.to_string()) };
+        }
         // the first scenarios are fixed so that every shape x the critical tails are always present
         let fixed: &[(&str, &str)] = &[
             ("array-closed", "none"), ("array-open", "none"), ("object-closed", "none"), ("object-open", "none"), ("mixed-closed", "none"), ("wide-closed", "none"),
@@ -196,7 +201,7 @@ impl C03Deep {
         // half of the random scenarios use the generic tail: any single stream fault at a position
         // biased to the structural boundaries of the (closed) deep document
         let (tail, fault) = if (run as usize) >= fixed.len() && !shape.ends_with("-open") && rng.chance(1, 2) {
-            let probe = DeepSc { shape: shape.clone(), depth, stack_kib, tail: "none".into(), tail_at: 0, via: via.clone(), opts, fault: None, outer: None };
+            let probe = DeepSc { shape: shape.clone(), depth, stack_kib, tail: "none".into(), tail_at: 0, via: via.clone(), opts, fault: None, outer: None, unit: None };
             let len = probe.text().0.chars().count() as u64;
             let open_len = len.saturating_sub(depth + 1); // closers are one character each, the leaf is one character
             let pos = match rng.below(12) {
@@ -218,9 +223,25 @@ impl C03Deep {
             let c = *rng.pick(&[']', '}', ',', ':', '[', '{', '"', 'x', ' ', '1', '\u{0}']);
             let shape = rng.pick(&["array-closed", "object-closed", "mixed-closed", "wide-closed"]).to_string();
             let via = if kind == "fail" && via == "str" { "iter".to_string() } else { via };
-            return DeepSc { shape, depth, stack_kib, tail: "generic-from-end".into(), tail_at: 0, via, opts, fault: Some((kind.to_string(), from_end, c)), outer: Some(outer) };
+            return DeepSc { shape, depth, stack_kib, tail: "generic-from-end".into(), tail_at: 0, via, opts, fault: Some((kind.to_string(), from_end, c)), outer: Some(outer), unit: None };
         }
-        DeepSc { shape, depth, stack_kib, tail, tail_at, via, opts, fault, outer: None }
+        // a fifth of the random scenarios: a long *run* of one token somewhere in a flat document
+        if (run as usize) >= fixed.len() && rng.chance(1, 4) {
+            let (unit, templates): (&str, &[&str]) = match rng.below(10) {
+                0 | 1 | 2 => (*rng.pick(&[" ", "\n", "\t", "\r", " \n"]), &["\u{1}1", "1\u{1}", "[\u{1}1]", "[1\u{1}]", "[1,\u{1}2]", "[1\u{1},2]", "{\u{1}\"a\":1}", "{\"a\"\u{1}:1}", "{\"a\":\u{1}1}", "{\"a\":1\u{1}}", "{\"a\":1,\u{1}\"b\":2}", "{\"a\":1\u{1},\"b\":2}", "[\u{1}]", "{\u{1}}", "[[\u{1}],{\"k\"\u{1}:[\u{1}]}]"][..]),
+                3 => ("7", &["1\u{1}", "[1.\u{1}]", "[1e\u{1}]", "{\"a\":-1\u{1}.5e+1\u{1}}", "0.\u{1}e-\u{1}"][..]),
+                4 => (*rng.pick(&["a", "é", "😀", "\\n", "\\u00e9", "\\ud83d\\ude00", "\\\\"]), &["\"\u{1}\"", "{\"\u{1}\":1}", "[\"x\u{1}\",1]"][..]),
+                5 | 6 => (*rng.pick(&["1,", "null,", "[],", "{},", "\"s\",", "[1],"]), &["[\u{1}1]", "{\"a\":[\u{1}0]}"][..]),
+                7 | 8 => (*rng.pick(&["\"k\":1,", "\"\":[],", "\"k\":{\"k\":0},"]), &["{\u{1}\"z\":0}", "[{\u{1}\"z\":0}]"][..]),
+                _ => (*rng.pick(&["\\ud800", "\\udc00", "\\ud800\\ud800"]), &["\"\u{1}\"", "{\"\u{1}\":0}"][..]),
+            };
+            let template = rng.pick(templates).to_string();
+            let fault = if rng.chance(1, 2) { None } else { Some((rng.pick(&["fail", "end", "flip", "insert", "drop"]).to_string(), rng.range(0, 6), *rng.pick(&[']', '}', ',', ':', 'x', '"'])) ) };
+            let via = if fault.as_ref().map(|f| f.0 == "fail").unwrap_or(false) && via == "str" { "iter".to_string() } else { via };
+            let tail = if fault.is_some() { "generic-from-end" } else { "none" }.to_string();
+            return DeepSc { shape: "run".into(), depth, stack_kib, tail, tail_at: 0, via, opts, fault, outer: Some(template), unit: Some(unit.to_string()) };
+        }
+        DeepSc { shape, depth, stack_kib, tail, tail_at, via, opts, fault, outer: None, unit: None }
     }
 }
 
@@ -284,3 +305,11 @@ pub fn gen_outer(rng: &mut Rng) -> String {
     node(rng, depth, &mut out);
     out
 }
+
+/// (template with placeholder U+0001, repeated token): each is run once with 100 000 repetitions in a 64 KiB stack.
+pub const RUN_TEMPLATES: [(&str, &str); 30] = [
+    ("\u{1}1", " "), ("1\u{1}", "\n"), ("[\u{1}1]", " "), ("[1\u{1}]", "\t"), ("[1,\u{1}2]", " "), ("[1\u{1},2]", "\r"), ("{\u{1}\"a\":1}", " "), ("{\"a\"\u{1}:1}", " "),
+    ("{\"a\":\u{1}1}", "\n"), ("{\"a\":1\u{1}}", " "), ("{\"a\":1,\u{1}\"b\":2}", " "), ("{\"a\":1,\"b\"\u{1}:2}", "\t"), ("{\"a\":1\u{1},\"b\":2}", " "), ("[\u{1}]", " "), ("{\u{1}}", "\n"),
+    ("1\u{1}", "7"), ("[1.\u{1}]", "7"), ("[1e\u{1}]", "7"), ("\"\u{1}\"", "a"), ("\"\u{1}\"", "😀"), ("\"\u{1}\"", "\\n"), ("\"\u{1}\"", "\\u00e9"), ("\"\u{1}\"", "\\ud83d\\ude00"),
+    ("{\"\u{1}\":1}", "k"), ("[\u{1}1]", "1,"), ("[\u{1}1]", "[],"), ("[\u{1}1]", "{\"a\":[1]},"), ("{\u{1}\"z\":0}", "\"k\":1,"), ("{\u{1}\"z\":0}", "\"k\":{\"k\":[0]},"), ("[\"x\",\u{1}\"y\"]", " "),
+];
